@@ -31,7 +31,7 @@ import (
 )
 
 func init() {
-	register(&Prop{ID: "C29", Module: "V.C29.Check", Gen: c29Gen, Quick: 260, Thorough: 1500, Shard: 24})
+	register(&Prop{ID: "C29", Module: "V.C29.Check", Gen: c29Gen, Quick: 170, Thorough: 1500, Shard: 60})
 }
 
 type c29Doc struct {
@@ -133,11 +133,8 @@ func c29KF(d *d2target.Diagram, exact bool) []string {
 	for _, s := range d.Shapes {
 		pos := label.FromString(s.LabelPosition)
 		if s.Label != "" && (pos.IsOutside() || pos.IsBorder()) {
-			if s.ThreeDee {
-				kf["C29-3d-outside-label"] = true
-			} else if s.Multiple {
-				kf["C29-multiple-outside-label"] = true
-			}
+			// (labels of 3d / multiple shapes were repaired in /repo commit ffec08c98, coq/C29/fixed.json: no
+			// signature any more, a regression is a VIOLATION)
 			p := pos.GetPointOnBox(geo.NewBox(geo.NewPoint(float64(s.Pos.X), float64(s.Pos.Y)), float64(s.Width), float64(s.Height)), label.PADDING, float64(s.LabelWidth), float64(s.LabelHeight))
 			if exact && (frac(p.X) || frac(p.Y)) {
 				kf["C29-label-truncation"] = true
@@ -377,6 +374,9 @@ func (b *c29Builder) shape(w *strings.Builder, id, indent string) {
 		fmt.Fprintf(w, "%s  icon: https://icons.example.com/x.svg\n", indent)
 		if r.Chance(0.75) {
 			near := r.Pick(c29Near[:21])
+			if r.Bool() {
+				near = r.Pick(c29Near[9:21])
+			}
 			fmt.Fprintf(w, "%s  icon.near: %s\n", indent, near)
 		}
 	}
@@ -490,9 +490,44 @@ func c29Corpus() []*c29Doc {
 	}
 }
 
+// c29IconSweep: an icon at every outside position (and every label position on shapes with 3d / multiple
+// copies) on the shape that is the extreme one of its board in that direction: alone, and as the last shape of a
+// chain laid out in the direction the icon points to.
+func c29IconSweep() []*c29Doc {
+	var out []*c29Doc
+	dirOf := func(near string) string {
+		switch {
+		case strings.HasPrefix(near, "outside-top"):
+			return "up"
+		case strings.HasPrefix(near, "outside-bottom"):
+			return "down"
+		case strings.HasPrefix(near, "outside-left"):
+			return "left"
+		default:
+			return "right"
+		}
+	}
+	for i, near := range c29Near[9:21] {
+		shapeType := c29Shapes[i%len(c29Shapes)]
+		out = append(out, &c29Doc{Class: "icon-sweep", Pad: 0,
+			Src: fmt.Sprintf("a: x {shape: %s; icon: https://icons.example.com/x.svg; icon.near: %s; width: 120; height: 90}\n", shapeType, near)})
+		out = append(out, &c29Doc{Class: "icon-sweep", Pad: 7,
+			Src: fmt.Sprintf("direction: %s\np -> q -> a\na: last {icon: https://icons.example.com/x.svg; icon.near: %s; width: 90; height: 80}\n", dirOf(near), near)})
+	}
+	for i, near := range c29Near[9:] {
+		style := []string{"style.multiple: true", "style.3d: true", "shape: hexagon; style.3d: true"}[i%3]
+		out = append(out, &c29Doc{Class: "label-sweep", Pad: 0,
+			Src: fmt.Sprintf("a: a label that is longer than its shape {%s; label.near: %s; width: 60; height: 70}\n", style, near)})
+	}
+	return out
+}
+
 func c29Gen(r *Rng, tier string, n int) []Case {
 	var out []Case
 	for _, d := range c29Corpus() {
+		out = append(out, c29Run(d))
+	}
+	for _, d := range c29IconSweep() {
 		out = append(out, c29Run(d))
 	}
 	for i := 0; i < n; i++ {
